@@ -6,7 +6,8 @@
      finalize_wrapper_prog pfd          holes: 0 = plan (instance), 1 = final_plan (instance; a callable
                                         final_plan is called before the try, which for a generator function
                                         runs nothing -- same thing)
-     finalize_decorator_prog callable   holes: 0 = gen_func(...), 1 = final_plan()
+     finalize_decorator_prog callable   holes: 0 = gen_func(...), 1 = final_plan()  (one call of the decorated
+                                        function; decorated_calls k = k calls in a row, fresh holes per call)
      contingency_prog o                 holes: 0 = plan, 1 = except_plan (function of the exception),
                                         2 = else_plan (function), 3 = final_plan (function)
      pause_call                         `yield from pause()` : the Plan object's __iter__ generator delegating
@@ -48,14 +49,30 @@ Definition finalize_wrapper_prog (pause_for_debug : bool) : stmt :=
               (SIf (CTruthy 1) (SYieldFromHole None 1) SPass))              (* finally: if cleanup: ... *)
         (SReturn (RVar 0))).
 
-Definition finalize_decorator_prog (final_plan_callable : bool) : stmt :=
+(* one call of the decorated function: hp = hole of gen_func(...) for this call, hf = hole of final_plan()
+   for this call (dec_inner calls final_plan() itself, so every call has its own cleanup instance) *)
+Definition finalize_decorator_prog_at (final_plan_callable : bool) (hp hf : nat) : stmt :=
   SSeq (SIf (cb (negb final_plan_callable)) (SRaise ETypeError) SPass)
   (SSeq (set_cleanup true)
-  (SSeq (STry (SYieldFromHole (Some 0) 0)
+  (SSeq (STry (SYieldFromHole (Some 0) hp)
               [(PGeneratorExit, SSeq (set_cleanup false) SReraise)]
               SPass
-              (SIf (CTruthy 1) (SYieldFromHole None 1) SPass))
+              (SIf (CTruthy 1) (SYieldFromHole None hf) SPass))
         (SReturn (RVar 0)))).
+
+Definition finalize_decorator_prog (final_plan_callable : bool) : stmt :=
+  finalize_decorator_prog_at final_plan_callable 0 1.
+
+(* the decorated function invoked k times in a row by one caller:
+     r = None;  for j in range(k): r = yield from decorated();  return r
+   call j wraps a fresh gen_func(...) (hole 2j) and a fresh final_plan() (hole 2j+1) *)
+Fixpoint decorated_calls_from (j k : nat) : stmt :=
+  match k with
+  | O => SReturn (RVar 0)
+  | S k' => SSeq (SYieldFrom (Some 0) (finalize_decorator_prog_at true (2 * j) (2 * j + 1)))
+                 (decorated_calls_from (S j) k')
+  end.
+Definition decorated_calls (k : nat) : stmt := decorated_calls_from 0 k.
 
 Record cw_opts := mkOpts {
   o_exc : bool;      (* except_plan given *)
